@@ -21,7 +21,10 @@ func (registry registryT) AddRegister(reg Register) {
 // New constructs a register, given its ID and raw value. It
 // will return an error if the value is of wrong underlying type.
 func (registry registryT) New(regID RegisterID, value interface{}) (Register, error) {
-	regT := registry.idToType[regID]
+	regT, ok := registry.idToType[regID]
+	if !ok {
+		return nil, fmt.Errorf("unknown register ID '%s'", regID)
+	}
 	regV := reflect.New(regT).Elem()
 	if value == nil {
 		return regV.Interface().(Register), nil
